@@ -1,4 +1,6 @@
 import SekaiProofs.Lemmas.RecoveryRegistry
+import Sekai.Gen.Keys
+import SekaiProofs.Lemmas.Keys
 /-! # REC — the x/recovery clauses of C03, C04, C06 and C16
 
 Theorems about `Sekai.Recovery` (the executable mirror of `x/recovery/keeper/msg_server.go`, `recovery.go`, `rewards.go`
@@ -1029,5 +1031,13 @@ example :
   constructor
   · intro h; have := h 5 2 (by simp); simp at this
   · simp [newPool]
+
+/-! ### Key spaces of the stores this model keeps in separate maps (table `Gen.Keys`)
+
+The model keeps each record kind of a module in a field of its own; the module keeps them in ONE store under byte prefixes.
+No prefix extends another (checked on the regenerated table), so by `Sekai.Keys.keys_of_different_kinds_differ` a key of one
+kind is never a key of another kind. -/
+
+theorem recovery_key_spaces_disjoint : Sekai.Keys.disjoint Sekai.Gen.Keys.stores "recovery" = true := by decide +kernel
 
 end Sekai.Props.REC
